@@ -45,6 +45,17 @@ for _n, _ev in (("c07_step_scalar_empty", "plain empty scalar"), ("c07_step_scal
                 ("c07_step_scalar_quoted_merge", "double-quoted '<<' (ordinary key)"), ("c07_step_scalar_tagged_merge", "tagged '<<' (ordinary key)"),
                 ("c07_step_seq_start", "SequenceStart"), ("c07_step_map_start", "MappingStart")):
     H(_n, "budget", ["C07", "C01"], expect_s=60, timeout=900, functions=BUDGET_FUNCS, claim=NODES_CLAIM + _ev, bound=NODES_BOUND, assumes=BUDGET_INV)
+BB_NOTE = ["black-box: uses only BudgetEnforcer::new / observe / finalize, concrete event list, all limits free; ahash::RandomState::new stubbed to fixed keys (OS randomness unsupported)"]
+BB_STREAMS = {"keyseq": "? [a] : << / other: x (12 events, AllContent)", "keymap": "? {k: x} : v / <<: {x: x} (16 events, AllContent)",
+              "anchors": "a: &1 [x, &2 x] / b: *1 / \"<<\": *1 (15 events, AllContent)", "twodocs": "two documents re-using anchor id 1 (14 events, PerDocument)",
+              "abandoned": "document abandoned with two containers open, boundary, full document (15 events, PerDocument)", "allcontent": "two documents (10 events, AllContent)"}
+for _n in ("keyseq_within", "keyseq_mergelimit", "keymap_within", "keymap_mergelimit", "anchors_within", "anchors_anchorlimit", "anchors_aliaslimit",
+           "twodocs_within", "twodocs_eventlimit", "twodocs_anchorlimit", "abandoned_within", "abandoned_depthlimit", "abandoned_nodelimit", "allcontent_within"):
+    _stream, _mode = _n.split("_")
+    H("c07_bb_" + _n, "budget", ["C07"], expect_s=90, timeout=900, blackbox=True, functions=["budget::BudgetEnforcer::new", "budget::BudgetEnforcer::observe", "budget::BudgetEnforcer::finalize"],
+      claim=("scenario, all limits free but admitting the stream: no event is rejected, the final report equals an independent count (events, nodes, depth, aliases, anchors, scalar bytes, merge keys with key/value position tracking), ratio verdict = documented inequality"
+             if _mode == "within" else "scenario, exactly one limit free (" + _mode + "): observe() fails at exactly the event at which the independent count first exceeds it"),
+      bound="concrete event list: " + BB_STREAMS[_stream], assumes=BB_NOTE)
 H("c07_step_ends", "budget", ["C07", "C01"], expect_s=60, functions=BUDGET_FUNCS,
   claim="one observe() of SequenceEnd/MappingEnd: Ok iff balanced and events within limit; depth and parent mapping state exact",
   bound="limits/counters free; exact container stack of 0..2 arbitrary entries (deeper entries are never touched by an end event)",
@@ -112,16 +123,19 @@ for _n, _t, _N, _tier, _exp in (("c06_int_i8_3", "i8", 3, "quick", 120), ("c06_i
 WIDE_CLAIM = "width boundary: for every digit string of the boundary's length in this radix, accepted iff <= the target's MAX (resp. |MIN|) literal, and the accepted value has exactly those digits"
 for _n, _desc, _tier, _exp in (
         ("c06_wide_i16_pos", "i16 decimal, 5 digits", "quick", 60), ("c06_wide_i16_neg", "i16 '-' + 5 decimal digits", "quick", 60), ("c06_wide_u16", "u16 decimal, 5 digits", "quick", 60),
-        ("c06_wide_i32_pos", "i32 decimal, 10 digits", "quick", 120), ("c06_wide_i32_neg", "i32 '-' + 10 digits", "quick", 120), ("c06_wide_u32", "u32 decimal, 10 digits", "quick", 120),
+        ("c06_wide_i32_pos", "i32 decimal, 10 digits", "thorough", 800), ("c06_wide_i32_neg", "i32 '-' + 10 digits", "thorough", 900), ("c06_wide_u32", "u32 decimal, 10 digits", "thorough", 800),
         ("c06_wide_i64_pos", "i64 decimal, 19 digits", "thorough", 900), ("c06_wide_i64_neg", "i64 '-' + 19 digits", "thorough", 900), ("c06_wide_u64", "u64 decimal, 20 digits", "thorough", 900),
-        ("c06_wide_hex_i8_pos", "i8 0x + 2 hex digits", "quick", 40), ("c06_wide_hex_i8_neg", "i8 -0x + 2 hex digits", "quick", 40), ("c06_wide_hex_u8", "u8 0X + 2 hex digits", "quick", 40),
+        ("c06_wide_hex_i8_pos", "i8 0x + 2 hex digits", "quick", 40), ("c06_wide_hex_i8_neg", "i8 -0x + 2 hex digits", "quick", 40), ("c06_wide_hex_u8", "u8 0X + 3 hex digits", "quick", 40),
         ("c06_wide_oct_i8_pos", "i8 0o + 3 octal digits", "quick", 40), ("c06_wide_oct_u8", "u8 0o + 3 octal digits", "quick", 40),
-        ("c06_wide_bin_i8_pos", "i8 0b + 7 binary digits", "quick", 60), ("c06_wide_bin_i8_neg", "i8 -0b + 8 binary digits", "quick", 60), ("c06_wide_bin_u8", "u8 0b + 8 binary digits", "quick", 60),
-        ("c06_wide_hex_i32_pos", "i32 0x + 8 hex digits", "quick", 120), ("c06_wide_hex_i32_neg", "i32 -0x + 8 hex digits", "quick", 120), ("c06_wide_hex_u32", "u32 0x + 8 hex digits", "quick", 120),
-        ("c06_wide_hex_i64_pos", "i64 0x + 16 hex digits", "thorough", 600), ("c06_wide_hex_i64_neg", "i64 -0x + 16 hex digits", "thorough", 600), ("c06_wide_hex_u64", "u64 0x + 16 hex digits", "thorough", 600),
+        ("c06_wide_bin_i8_pos", "i8 0b + 8 binary digits", "quick", 60), ("c06_wide_bin_i8_neg", "i8 -0b + 8 binary digits", "quick", 60), ("c06_wide_bin_u8", "u8 0b + 9 binary digits", "quick", 60),
+        ("c06_wide_hex_i32_pos", "i32 0x + 8 hex digits", "quick", 120), ("c06_wide_hex_i32_neg", "i32 -0x + 8 hex digits", "quick", 120), ("c06_wide_hex_u32", "u32 0x + 9 hex digits", "quick", 120),
+        ("c06_wide_hex_i64_pos", "i64 0x + 16 hex digits", "thorough", 600), ("c06_wide_hex_i64_neg", "i64 -0x + 16 hex digits", "thorough", 600), ("c06_wide_hex_u64", "u64 0x + 17 hex digits", "thorough", 600),
+        ("c06_wide_hex32_i64_pos", "i64 0x + 32 hex digits (magnitudes up to 2^128-1)", "quick", 300), ("c06_wide_hex32_i64_neg", "i64 -0x + 32 hex digits", "quick", 300),
+        ("c06_wide_hex32_i128_pos", "i128 0x + 32 hex digits", "thorough", 600), ("c06_wide_hex32_i128_neg", "i128 -0x + 32 hex digits", "thorough", 600),
+        ("c06_wide_hex33_u128", "u128 0x + 33 hex digits", "thorough", 600),
         ("c06_wide_oct_i64_pos", "i64 0o + 21 octal digits", "thorough", 900), ("c06_wide_oct_u64", "u64 0o + 22 octal digits", "thorough", 900)):
     H(_n, "parse_scalars", ["C06"], tier=_tier, expect_s=_exp, timeout=max(900, _exp * 4), functions=INT_FUNCS, claim=WIDE_CLAIM,
-      bound="concrete skeleton, every digit symbolic in its radix class (hex: both cases), leading digit non-zero: " + _desc, assumes=[STD_STUBS])
+      bound="concrete skeleton, every digit symbolic in its radix class (hex: both cases), leading zeros included: " + _desc, assumes=[STD_STUBS])
 for _n, _N, _tier in (("c06_bool_3", 3, "quick"), ("c06_bool_4", 4, "quick"), ("c06_bool_5", 5, "thorough")):
     H(_n, "parse_scalars", ["C06", "C01"], tier=_tier, expect_s=60 * (_N - 2), functions=["parse_scalars::parse_yaml11_bool"],
       claim="Ok(b) iff the trimmed token is, case-insensitively, one of true/yes/y/on (b=true) or false/no/n/off (b=false)",
@@ -132,9 +146,42 @@ H("c06_null_4", "parse_scalars", ["C06", "C05"], expect_s=60, functions=["parse_
 H("c06_leading_zero_4", "parse_scalars", ["C06"], expect_s=60, functions=["parse_scalars::leading_zero_decimal"],
   claim="true iff after trim and one optional sign the token starts with 0, has a further character and that is not a radix letter",
   bound="every ASCII string of length 0..4", assumes=[STD_STUBS])
-H("c06_float_special_5", "parse_scalars", ["C06"], expect_s=120, timeout=1200, functions=["parse_scalars::parse_yaml12_float::<f64>"],
-  claim=".nan/+.nan/-.nan -> NaN, .inf/+.inf -> +inf, -.inf -> -inf in every letter case",
-  bound="all 4..5 byte tokens over {. + - n a i f N A I F} that are one of the documented special forms; decimal->binary conversion (libcore dec2flt) is outside", assumes=[STD_STUBS])
+for _n, _N, _tier in (("c06_float_special_4", 4, "quick"), ("c06_float_special_5", 5, "quick"), ("c06_float_special_6", 6, "thorough")):
+    H(_n, "parse_scalars", ["C06"], tier=_tier, expect_s=200, timeout=1500, functions=["parse_scalars::parse_yaml12_float::<f64>", "core::num::dec2flt (real libcore code, on non-digit tokens)"],
+      claim="over the alphabet of the special float forms: .nan/+.nan/-.nan -> NaN, .inf/+.inf -> +inf, -.inf -> -inf in every letter case; every other token is rejected unless Rust's own float syntax ([+-]?(inf|nan)) admits it - in particular sign combinations like -+.inf are rejected",
+      bound="all %d-byte tokens over {. + - n a i f N A I F}; decimal->binary conversion of digit strings is outside" % _N, assumes=[STD_STUBS])
+
+# --------------------------------------------------------------------------------------------
+# C09 / C10 reader adapter (src/buffered_input.rs)
+# --------------------------------------------------------------------------------------------
+READ_ENV = ["stub std::io::Read: every call returns a symbolic count 1..=min(buf.len(), remaining) (all partitions incl. partial fills), Ok(0) only at end of data; never ErrorKind::Interrupted",
+            STD_STUBS, FMT_STUB]
+STEP = "one inductive step: a single next() from an arbitrary iterator state (reader position, running byte total, empty error cell); covers streams of any length by induction"
+H("c09_next_step_chunking", "buffered_input", ["C09", "C01"], expect_s=200, timeout=1500, mem_gb=16, functions=["buffered_input::ChunkedChars::next", "std::io::Read::read (stub)"],
+  claim="for every chunking of the reader's bytes (incl. splits inside a multi-byte character, partial fills) the character delivered equals the one-shot decoding and exactly its bytes are consumed; invalid UTF-8 or an end of data inside a character ends the input with the error cell set; a clean end ends it without",
+  bound="next 4 bytes of the stream fully symbolic (valid or not), 0..4 of them available, all read() partitions; " + STEP, assumes=READ_ENV)
+H("c10_next_step_fault", "buffered_input", ["C10", "C01"], expect_s=300, timeout=1500, mem_gb=16, functions=["buffered_input::ChunkedChars::next"],
+  claim="if any read() of this step returns Err (kind in {Other, UnexpectedEof, BrokenPipe, InvalidData, TimedOut, ConnectionReset}) no character is delivered AND the shared error cell is set - a reader error is never taken for end of input",
+  bound="as c09_next_step_chunking plus fault at the k-th read call of the step, k in 0..=3, 6 error kinds; " + STEP, assumes=READ_ENV)
+H("c10_next_step_cap", "buffered_input", ["C10"], expect_s=300, timeout=1500, mem_gb=16, functions=["buffered_input::ChunkedChars::next (max_bytes)"],
+  claim="a character is delivered only if the running total stays <= cap, otherwise the step ends with ErrorKind::FileTooLarge; at most 4 bytes are pulled per step (so never more than cap + 4 in total); input within the cap is unaffected",
+  bound="as c09_next_step_chunking plus cap and running total free 64-bit words (total <= cap: invariant of a live iterator); " + STEP, assumes=READ_ENV)
+H("c10_next_step_cap_fault", "buffered_input", ["C10"], tier="thorough", expect_s=600, timeout=2400, mem_gb=20, functions=["buffered_input::ChunkedChars::next"],
+  claim="cap and reader faults together: same post-conditions", bound="union of c10_next_step_fault and c10_next_step_cap", assumes=READ_ENV)
+
+# --------------------------------------------------------------------------------------------
+# C12 plain-safety predicates (src/ser_quoting.rs)
+# --------------------------------------------------------------------------------------------
+E2E = "every oracle failure is conjoined with an end-to-end confirmation that is stubbed to `true` for the solver and runs the real to_string -> from_str round trip in the native replay (an over-strict oracle therefore yields 'not reproduced', never a VIOLATION)"
+NUMLOOK = "ser_quoting::is_numeric_looking (a `regex`) is stubbed by a hand-written recogniser of the same language, validated natively against the real regex on all strings <= 5 symbols by bin/check --selftest"
+for _n, _N, _tier, _exp in (("c12_key_plain_1", 1, "quick", 60), ("c12_key_plain_2", 2, "quick", 120), ("c12_key_plain_3", 3, "quick", 300), ("c12_key_plain_4", 4, "thorough", 1200)):
+    H(_n, "ser_quoting", ["C12"], tier=_tier, expect_s=_exp, timeout=max(900, 4 * _exp), mem_gb=16, functions=["ser_quoting::is_plain_safe", "ser_quoting::is_ambiguous", "ser_quoting::contains_any_or_is_control"],
+      claim="is_plain_safe(s) (key position) implies that s written as a plain scalar reads back as the same string: no leading/trailing blank, no control/line-break/BOM-at-start, no indicator start, no ': ' / ' #' / trailing ':', not null/bool/number-like, not the merge key '<<', not a document marker",
+      bound="all valid-UTF-8 strings of exactly %d bytes" % _N, assumes=[STD_STUBS, FMT_STUB, NUMLOOK, E2E])
+for _n, _N, _tier, _exp in (("c12_value_plain_1", 1, "quick", 60), ("c12_value_plain_2", 2, "quick", 120), ("c12_value_plain_3", 3, "quick", 300), ("c12_value_plain_4", 4, "thorough", 1200)):
+    H(_n, "ser_quoting", ["C12"], tier=_tier, expect_s=_exp, timeout=max(900, 4 * _exp), mem_gb=16, functions=["ser_quoting::is_plain_value_safe", "ser_quoting::is_ambiguous_value", "ser_quoting::is_ambiguous"],
+      claim="is_plain_value_safe(s, yaml_12, in_flow) implies that s written plain in value position (block or flow) reads back as the same string (same conditions as for keys, plus flow indicators in flow context and YAML 1.1 booleans unless yaml_12)",
+      bound="all valid-UTF-8 strings of exactly %d bytes x yaml_12 x in_flow" % _N, assumes=[STD_STUBS, FMT_STUB, NUMLOOK, E2E])
 
 PROP_NOTES = {
     "C07": "C07 is decided at the level of the budget automaton: one inductive step from an arbitrary state satisfying the "
